@@ -296,6 +296,7 @@ def rewrite_body(body, mode, stats):
     body = apply_counted(r'&\s*(\w+)\.to_be_bytes\(\)', r'be_key(\1)', body, stats, 'R11_be_key')
     body = apply_counted(r'bucket_read\(\s*([\w.]+)\s*,\s*(KEY_\w+)\s*\)\s*\.load\(', r'bucket_load__\2(\1, ', body, stats, 'R11_storage_prim')
     body = apply_counted(r'bucket\(\s*([\w.]+)\s*,\s*(KEY_\w+)\s*\)\s*\.save\(', r'bucket_save__\2(\1, ', body, stats, 'R11_storage_prim')
+    body = apply_counted(r'let\s+mut\s+store\s*:\s*Singleton<\w+>\s*=\s*singleton\(\s*(\w+)\s*,\s*(KEY_\w+)\s*\)\s*;\s*store\.remove\(\)', r'singleton_remove__\2(\1)', body, stats, 'R11_storage_prim')
     # R9: unwrap -> unwrap_or_abort (partial mode)
     if mode == 'partial':
         body = apply_counted(r'\.unwrap\(\)', '.unwrap_or_abort()', body, stats, 'R9_unwrap')
